@@ -33,7 +33,7 @@ Proof.
   - apply sunmerge_nodup; auto.
   - intros k c'. rewrite GN. destruct (getn k (nodes C)) as [c|]; [|discriminate].
     destruct (alive (unm g c)) eqn:E; [|discriminate]. intro X; inversion X; subst. exact E.
-  - intros e He. unfold hase, has in He. fold (@gete (edata * bool)) in He.
+  - intros e He. unfold hase, has in He. fold (@gete edata) in He.
     rewrite sunmerge_get_edge in He; auto.
     destruct (gete e (edges C)); [|discriminate].
     destruct (hasn (fst e) (nodes (sunmerge C g))), (hasn (snd e) (nodes (sunmerge C g))); simpl in He; auto; discriminate.
@@ -154,7 +154,7 @@ Qed.
 (* connections and plain data of a merged family (merging only) *)
 Definition from_family (Ms : list adm) (C : cbm) : Prop :=
   (forall e, hase e (edges C) = true <-> exists A, In A Ms /\ hase e (adm_edges A) = true) /\
-  (forall e d f, gete e (edges C) = Some (d, f) -> exists A, In A Ms /\ gete e (adm_edges A) = Some d) /\
+  (forall e d, gete e (edges C) = Some d -> exists A, In A Ms /\ gete e (adm_edges A) = Some d) /\
   (forall k c, getn k (nodes C) = Some c ->
        exists A a, In A Ms /\ getn k (adm_nodes A) = Some a /\ c_cls c = a_cls a /\ c_oth c = a_oth a).
 
@@ -166,19 +166,19 @@ Lemma from_family_smerge Ms C A C' :
 Proof.
   intros (F1 & F2 & F3) H. split; [|split].
   - intro e. rewrite hase_get. rewrite (smerge_get_edge _ _ _ e H). split.
-    + intros [v Hv]. destruct (gete e (edges C)) as [[d f]|] eqn:Ec.
+    + intros [v Hv]. destruct (gete e (edges C)) as [d|] eqn:Ec.
       * assert (hase e (edges C) = true) as X by (apply hase_get; eauto).
         apply F1 in X as (B & HB & HE). exists B. rewrite in_app_iff. auto.
       * destruct (gete e (adm_edges A)) eqn:Ea; [|discriminate].
         exists A. rewrite in_app_iff. simpl. split; auto. apply hase_get; eauto.
     + intros (B & HB & HE). rewrite in_app_iff in HB. destruct HB as [HB|[HB|[]]].
       * assert (hase e (edges C) = true) as X by (apply F1; eauto).
-        apply hase_get in X as [[d f] ->]. destruct (gete e (adm_edges A)); eauto.
-      * subst. apply hase_get in HE as [d ->]. destruct (gete e (edges C)) as [[d' f]|]; eauto.
-  - intros e d f. rewrite (smerge_get_edge _ _ _ e H).
-    destruct (gete e (edges C)) as [[d' f']|] eqn:Ec.
-    + intro X. assert (d' = d) by (destruct (gete e (adm_edges A)); inversion X; auto). subst.
-      destruct (F2 e d f' Ec) as (B & HB & HE). exists B. rewrite in_app_iff. auto.
+        apply hase_get in X as [d ->]. eauto.
+      * subst. apply hase_get in HE as [d ->]. destruct (gete e (edges C)) as [d'|]; eauto.
+  - intros e d. rewrite (smerge_get_edge _ _ _ e H).
+    destruct (gete e (edges C)) as [d'|] eqn:Ec.
+    + intro X. inversion X; subst.
+      destruct (F2 e d Ec) as (B & HB & HE). exists B. rewrite in_app_iff. auto.
     + destruct (gete e (adm_edges A)) eqn:Ea; [|discriminate]. intro X; inversion X; subst.
       exists A. rewrite in_app_iff. simpl. auto.
   - intros k c. rewrite (smerge_get_node _ _ _ k H).
